@@ -5,6 +5,7 @@ import (
 	"encoding/json"
 	"errors"
 	"fmt"
+	"io"
 	"math/rand"
 	"net/http"
 	"net/http/httptest"
@@ -328,6 +329,7 @@ type c15outcome struct {
 	route string
 	req   string
 	resp  string
+	fwd   string // the request body as the next handler would read it, read after all validation calls returned
 }
 
 func c15Docs(c *core.Ctx, fl *inflight) {
@@ -416,6 +418,12 @@ func c15Docs(c *core.Ctx, fl *inflight) {
 				if pi != nil {
 					o.resp = "panic: " + pi.Value
 				}
+				// the body left in the request for the next handler, read once everything else is done (other
+				// goroutines have validated their own requests in between)
+				if req.Body != nil && req.Body != http.NoBody {
+					data, rerr := io.ReadAll(req.Body)
+					o.fwd = fmt.Sprintf("len=%d fnv=%x err=%v", len(data), core.Hash64(string(data)), rerr)
+				}
 				// the route handed out must still describe this request after other calls ran (held routes)
 				if route.Method != req.Method || (declared != nil && route.Operation != declared) {
 					o.route += " ROUTE-CHANGED-WHILE-HELD"
@@ -483,10 +491,13 @@ func c15Docs(c *core.Ctx, fl *inflight) {
 								part = "request verdict"
 								if o.req == w.req {
 									part = "response verdict"
+									if o.resp == w.resp {
+										part = "forwarded request body"
+									}
 								}
 							}
 							c.Violate(map[string]string{"kind": "concurrent_outcome_differs_from_sequential", "layer": "L2", "router": rname, "part": part},
-								map[string]any{"message": m, "concurrent": o.route + " | " + o.req + " | " + o.resp, "sequential": w.route + " | " + w.req + " | " + w.resp, "doc": docJSON},
+								map[string]any{"message": m, "concurrent": o.route + " | " + o.req + " | " + o.resp + " | " + o.fwd, "sequential": w.route + " | " + w.req + " | " + w.resp + " | " + w.fwd, "doc": docJSON},
 								fmt.Sprintf("router=%s %s %s\nconcurrent: %s | %s | %s\nsequential: %s | %s | %s", rname, m.Method, core.Truncate(m.URL, 200), o.route, core.Truncate(o.req, 150), core.Truncate(o.resp, 150), w.route, core.Truncate(w.req, 150), core.Truncate(w.resp, 150)))
 						}
 					}
